@@ -60,7 +60,9 @@ def run_sharded(prop, tier, seed, nshards, timeout):
     if not getattr(mod, 'NO_OPTIMIZED_FLAVOUR', False):
         # (-W error: the interpreter's warning policy - a DeprecationWarning from a call the library makes becomes an
         # exception, as under PYTHONWARNINGS=error or a test suite's filterwarnings = error)
-        flavours = [('-O',), ('-W', 'error')] + ([('-OO',)] if tier != 'quick' else [])
+        # (-X dev: Python Development Mode - codec names and error-handler names are checked on every encode / decode
+        # call instead of only when a byte fails to decode, unclosed files and never-awaited coroutines are reported)
+        flavours = [('-O',), ('-W', 'error'), ('-X', 'dev')] + ([('-OO',)] if tier != 'quick' else [])
         if not getattr(mod, 'NO_BB_FLAVOUR', False):
             # -bb: comparing bytes with str / int raises BytesWarning instead of quietly answering False.  Not for the
             # checks that list raw events: the event listing prints its payload with str(bytes) on purpose.
